@@ -36,6 +36,11 @@ def check(run, filesets, info, tag):
     res = vlib.run_impl(cases, run.workdir, per_case_timeout=30)
     lines = []
     for i, r in enumerate(res):
+        if "panic" in r or "abort" in r:
+            text = "\n".join(t for _, t in filesets[i])
+            run.violation("impl-violates-property", "the analysis of a parsed library crashed (%s): %s" % (
+                str(r.get("panic") or r.get("abort"))[:160], text[:200].replace("\n", " ")), {"input": {"text": text, "files": [[n, t] for n, t in filesets[i]]}})
+            continue
         if "facts" not in r or r.get("parse_errs") or "rules" not in r:
             continue      # a file did not parse, or a transformation failed: the rules do not run
         lines.append(("rules", i, r["facts"]))
@@ -197,6 +202,11 @@ def check_types(run, filesets, info, tag):
     res = vlib.run_impl(cases, run.workdir, per_case_timeout=30)
     lines = []
     for i, r in enumerate(res):
+        if "panic" in r or "abort" in r:
+            text = "\n".join(t for _, t in filesets[i])
+            run.violation("impl-violates-property", "a transformation of a parsed library crashed (%s): %s" % (
+                str(r.get("panic") or r.get("abort"))[:160], text[:200].replace("\n", " ")), {"input": {"text": text, "files": [[n, t] for n, t in filesets[i]]}})
+            continue
         if "before" not in r or r.get("parse_errs"):
             continue      # a file did not parse, or an earlier transformation failed
         lines.append(("latebound", i, r["before"]))
